@@ -15,6 +15,20 @@ pub trait Power {
     }
 }
 
+/// Like [`pretty_exponent`], but only uses spellings that the parser reads back:
+/// superscripts are limited to a single digit, larger exponents are written as `^n`.
+pub fn pretty_exponent_parsable(e: &Exponent) -> CompactString {
+    if e.is_integer() && (*e.numer() >= 10 || *e.numer() <= -10) {
+        if *e.numer() > 0 {
+            format_compact!("^{e}")
+        } else {
+            format_compact!("^({e})")
+        }
+    } else {
+        pretty_exponent(e)
+    }
+}
+
 pub fn pretty_exponent(e: &Exponent) -> CompactString {
     if !e.is_integer() {
         return format_compact!("^({e})");
